@@ -25,7 +25,7 @@ Functions for manipulating edges in the CFG.
 """
 
 import uuid
-from typing import Container, Optional, overload
+from typing import Container, Iterable, Optional, overload
 
 import gtirb
 from typing_extensions import NotRequired, TypedDict, Unpack
@@ -150,11 +150,12 @@ def add_return_edges_to_callee(
     cache: ModifyCache,
     module: gtirb.Module,
     func_uuid: uuid.UUID,
-    return_target: gtirb.CfgNode,
+    return_targets: Iterable[gtirb.CfgNode],
     cfg: gtirb.CFG,
 ) -> None:
     """
-    Adds a new return edge to all returns in the function.
+    Adds new return edges, one per return target, to all returns in the
+    function.
     """
     for block in _get_function_blocks(module, func_uuid):
         assert block.ir
@@ -167,13 +168,14 @@ def add_return_edges_to_callee(
             # proxies.
             block.ir.cfg.discard(return_edge)
 
-        cfg.add(
-            gtirb.Edge(
-                source=block,
-                target=return_target,
-                label=gtirb.Edge.Label(type=gtirb.Edge.Type.Return),
+        for return_target in return_targets:
+            cfg.add(
+                gtirb.Edge(
+                    source=block,
+                    target=return_target,
+                    label=gtirb.Edge.Label(type=gtirb.Edge.Type.Return),
+                )
             )
-        )
 
 
 def remove_return_edges_from_callee(
